@@ -43,6 +43,15 @@ pub fn gen(prop: &str, scen: &str, _k: u64, seed: u64, tier: &str) -> Case {
             let len = biased_len(&mut r_in, maxlen, &[4096, 8192, 65536, 65536 + 4096]);
             optgen::random_format(&mut r_opt, &mut case, fmts, len);
             case.input = random_input(&mut r_in, len, case.opt.dict);
+            if r_in.pct(2) && matches!(case.fmt.as_str(), "lzma2" | "xz") {
+                // text / > 128 KiB of noise / short text: uncompressed chunks in the middle and a
+                // state-reset chunk (control 0xA0, 0xA1...) for the tail
+                case.input = simcore::case::sandwich_input(&mut r_in);
+                if case.opt.mode == 1 && case.opt.nice > 64 {
+                    case.opt.depth = 4;
+                }
+            }
+            let len = case.input.len;
             histories(&mut case, &mut r_ops, &mut r_f, len);
         }
         "rt.codec.bias" | "rt.container.bias" => {
@@ -72,11 +81,15 @@ pub fn gen(prop: &str, scen: &str, _k: u64, seed: u64, tier: &str) -> Case {
             if case.opt.nice > 64 && case.opt.mode == 1 {
                 case.opt.depth = 4; // keep the normal-mode optimiser affordable
             }
-            let class = *r_in.pick(&["random", "random", "incomp_then_comp", "mixed", "far_repeat", "text", "zero", "code"]);
+            let class = *r_in.pick(&["random", "random", "incomp_then_comp", "mixed", "far_repeat", "text", "zero", "code", "sandwich"]);
             case.input = random_input(&mut r_in, len, case.opt.dict);
             case.input.class = class.into();
             if class == "incomp_then_comp" {
                 case.input.p1 = r_in.range(20, 95);
+            }
+            if class == "sandwich" {
+                case.input.p1 = r_in.range(1000, 60_000);
+                case.input.p2 = (len as u64).saturating_sub(case.input.p1 + r_in.range(1, 120_000));
             }
             case.wops = random_wops(&mut r_ops, len, true, 12);
             case.rbufs = vec![65536];
